@@ -9,3 +9,4 @@ import CtyModel.Props.C05
 import CtyModel.Props.C04
 import CtyModel.Props.C16
 import CtyModel.Props.C15
+import CtyModel.Props.C13
